@@ -1,6 +1,6 @@
 (** C14 -- Failures surface as errors and every opened log reader is closed.  Statements only (proofs:
     Proofs/DockerP.v; the stream-level "a fault is an error, never a clean end" theorems are C03's). *)
-From LogQLV Require Import Base.Bytes Base.LMap Model.Tables Model.Frames Model.Stages Model.Engine Model.Metric Model.Docker Proofs.DockerP.
+From LogQLV Require Import Base.Bytes Base.LMap Model.Tables Model.Frames Model.Stages Model.Engine Model.Metric Model.Docker Proofs.DockerP Proofs.FaultP.
 From Coq Require Import Permutation.
 
 (** for every query shape (one selection, aggregations over it, binary operations over sub-expressions, nested
@@ -21,6 +21,17 @@ Proof. exact DockerP.list_failure_is_error. Qed.
 Theorem open_failure_is_error : forall o inv q lim, open_fails (selected (q_sel q) inv) = true -> docker_log o false inv q lim = DErr.
 Proof. exact DockerP.open_failure_is_error. Qed.
 Print Assumptions open_failure_is_error.
+
+(** a faulty stream in any selected container makes an unlimited log query an error -- never a shortened result.
+    [snd (decode_ctr c) = true] is exactly "the stream of c does not end cleanly": cut inside a frame body, daemon error
+    frame, malformed timestamp, frame without a space, failing reader at any position (the C03 theorems say which streams
+    those are).  The proof follows the iterator protocol call by call: the single-container stream, or mergeIter with its
+    one-record read-ahead per container, sticky stream errors, and the engine's loop that asks the storage before it looks at the limit. *)
+Theorem stream_fault_is_error : forall o inv q lim,
+  lim <= 0 -> existsb (fun c => snd (decode_ctr c)) (selected (q_sel q) inv) = true ->
+  forall es, docker_log o false inv q lim <> DOk es.
+Proof. exact stream_fault_is_error_lemma. Qed.
+Print Assumptions stream_fault_is_error.
 
 Example c14_nonvacuous :
   let inv := [mk_ctr ["a"%byte]; mkctr ["b"%byte] [["b"%byte]] [] [] [] 0 [] [] [] [] true] in
